@@ -136,6 +136,13 @@ def run(chk, w):
                               "%s (which changes library state) is called outside the !running guard: a start call while the library is running is not a no-op" % c.callee)
 
     # ---- JOIN
+    # ---- UNCOND (shared with C09): the shutdown commands go out whatever the cached feedback says
+    from . import c09 as _c09
+    from .. import sendapi as _sendapi
+    _S = _sendapi.SendAPI(w)
+    _reach = {n for n in P.reachable_functions(["bidib_stop"]) if n in P.functions and P.functions[n].blocks and P.functions[n].relfile.startswith(("src/highlevel/", "src/lowlevel/"))}
+    _c09.uncond_rule(chk, P, _S, "C16-UNCOND", _reach, 4)
+
     chk.rule("C16-JOIN", "every thread handle that is created is joined in stop and forgotten afterwards (a stale handle is never joined again)")
     created = {}
     for f in P.repo_functions():
